@@ -94,6 +94,14 @@ inductive MTgt
   | newReg            -- `q.measure(store_array=False)` : RegFuture on an M register (binds a handle)
   deriving DecidableEq, Repr, Inhabited
 
+/-- register events of an EPR operation (create/recv Ã— keep/measure/rsp/context, any flags), as recorded
+from the real builder: `take` = `get_inactive_register(activate=True)` (lowest free register),
+`rel p` = `remove_active_register` of the p-th register the operation currently holds -/
+inductive EprEv
+  | take
+  | rel (p : Nat)
+  deriving DecidableEq, Repr, Inhabited
+
 /-- Host operations. `seq`/`skip` make blocks; every constructor with a `body`
 is an operation that is *completed* when `emit` returns. Handles: register
 handles are numbered in creation order (at build time), arrays by address. -/
@@ -111,6 +119,7 @@ inductive Host
   | foreach (arr : Nat) (withIdx : Bool) (body : Host)    -- `arr.foreach()` / `arr.enumerate()`
   | loopUntil (maxIter : Int) (body : Host) (ef : Val) (ev : Int) (cleanup : Host)
   | tryUntil (maxTries : Int) (body : Host)
+  | epr (evs : List EprEv)     -- an EPR operation, abstracted to its register discipline (C14)
   deriving Repr, Inhabited
 
 inductive Top
@@ -418,6 +427,21 @@ def emitQop (m : Mem) (gates : List Nat) (tgt : MTgt) : Except BuildError (Mem Ã
     | none =>
       .ok (bindHandle { m1 with regsToReturn := m1.regsToReturn ++ [M k] } (M k) true, head)
 
+/-- replay of the register events of an EPR operation; `held` = registers it currently holds -/
+def emitEprH (m : Mem) (held : List Nat) : List EprEv â†’ Except BuildError (Mem Ã— List Nat)
+  | [] => .ok (m, held)
+  | .take :: es =>
+    match takeReg m with
+    | .error e => .error e
+    | .ok (m1, i) => emitEprH m1 (held ++ [i]) es
+  | .rel p :: es =>
+    match held[p]? with
+    | none => .error .regState
+    | some i =>
+      match release m i with
+      | .error e => .error e
+      | .ok m1 => emitEprH m1 (held.erase i) es
+
 /-! ## the builder on host operations -/
 
 def arrLen (m : Mem) (a : Nat) : Except BuildError Nat :=
@@ -514,6 +538,10 @@ def emit (m : Mem) : Host â†’ Except BuildError (Mem Ã— List PCmd)
               | .ok m7 =>
                 .ok (m7, loopUntilEntry (R i) maxIter le lx ++ cs ++ brk ++ cl ++ loopUntilExit (R i) le lx)
   | .tryUntil _ body => emit m body
+  | .epr evs =>
+    match emitEprH m [] evs with
+    | .error e => .error e
+    | .ok (m1, _) => .ok (m1, [])
 
 /-! ## flush -/
 
